@@ -87,6 +87,12 @@ fn rejected_menu(cfg: &Cfg, w: &World) -> Vec<(&'static str, Event)> {
                 v.push(("401-without-realm", Event::Deliver { to: t.clone(), reply: Reply::plain(RClass::Error(401)).with_chal(Chal { realm: false, nonce: NonceKind::Plain(7), pas: PasKind::Absent, realm_v: 0, order: 0 }).with_fp(fp) }));
                 v.push(("401-without-nonce", Event::Deliver { to: t.clone(), reply: Reply::plain(RClass::Error(401)).with_chal(Chal { realm: true, nonce: NonceKind::Absent, pas: PasKind::Absent, realm_v: 0, order: 0 }).with_fp(fp) }));
                 v.push(("438-without-nonce", Event::Deliver { to: t.clone(), reply: Reply::plain(RClass::Error(438)).with_fp(fp) }));
+                // ... and carrying an integrity attribute that verifies / does not verify: still unusable, still a no-op
+                // (whatever authentication does as a side effect must not happen for a buffer that ends up rejected)
+                for mac in [RMac::Mi, RMac::Sha, RMac::BadMi, RMac::MiOtherPass] {
+                    v.push(("438-without-nonce-with-integrity", Event::Deliver { to: t.clone(), reply: Reply::plain(RClass::Error(438)).with_mac(mac).with_fp(fp) }));
+                    v.push(("401-without-nonce-with-integrity", Event::Deliver { to: t.clone(), reply: Reply::plain(RClass::Error(401)).with_chal(Chal { realm: true, nonce: NonceKind::Absent, pas: PasKind::Absent, realm_v: 0, order: 0 }).with_mac(mac).with_fp(fp) }));
+                }
                 // an error response that carries no ERROR-CODE at all: unauthenticated, authenticated, wrongly authenticated
                 for mac in [RMac::None, RMac::Mi, RMac::Sha, RMac::BadMi, RMac::ShaOtherPass] {
                     v.push(("error-response-without-error-code", Event::Deliver { to: t.clone(), reply: Reply::plain(RClass::ErrorNoCode).with_mac(mac).with_fp(fp) }));
@@ -407,9 +413,9 @@ pub fn run(ctx: &RunCtx) -> i32 {
         rep,
         Finish {
             level: "model_checking",
-            rule: format!("breadth-first exploration of the real client to depth {} for 8 transport x mechanism x fingerprint configurations (limit 3) over {{Send, Timer, AdvanceTo, Deliver(accepted reply kinds of the mechanism incl. 401 / 438 challenges), every rejected-buffer kind: undecodable (garbage, truncated), request class, reply for an unknown id, reply for a finished id, bad / missing / misplaced FINGERPRINT, a wrong FINGERPRINT followed by a decoy attribute or by a second FINGERPRINT, auth-failing response on unreliable transport (corrupted, absent, other password), both-MACs response, wrong-algorithm response, 401 without realm / nonce, 438 without nonce, an error response without ERROR-CODE (5 integrity variants), a long-term success response with both MACs, complete 401 / 438 challenges (new realm / nonce / algorithms) whose own integrity attribute fails, indication failing authentication / without integrity}}. A buffer of a kind the statement lists as rejected (undecodable bytes, a request, a response for an unknown or finished id, a bad / missing fingerprint) that is accepted is a violation in itself. Direct oracle on every transition whose call returned Err: no events and a byte-identical canonical snapshot before/after, the only tolerated change being one added violated marker for a response on unreliable transport with credentials. A directed run with 40 (thorough up to 260) requests outstanding, each rejected twice for failing authentication, checks that a rejection touches no marker but its own. Differential oracle at every visited state: a fixed continuation (all outstanding requests driven to their final outcome by the pending deadlines, one more exchange, RTO of the new request, final snapshot) is run with and without each rejected kind inserted and must produce identical observations (only TimedOut -> ProtectionViolated for the affected request may differ)", depth),
+            rule: format!("breadth-first exploration of the real client to depth {} for 8 transport x mechanism x fingerprint configurations (limit 3) over {{Send, Timer, AdvanceTo, Deliver(accepted reply kinds of the mechanism incl. 401 / 438 challenges), every rejected-buffer kind: undecodable (garbage, truncated), request class, reply for an unknown id, reply for a finished id, bad / missing / misplaced FINGERPRINT, a wrong FINGERPRINT followed by a decoy attribute or by a second FINGERPRINT, auth-failing response on unreliable transport (corrupted, absent, other password), both-MACs response, wrong-algorithm response, 401 without realm / nonce, 438 without nonce (also carrying a valid / invalid integrity attribute), an error response without ERROR-CODE (5 integrity variants), a long-term success response with both MACs, complete 401 / 438 challenges (new realm / nonce / algorithms) whose own integrity attribute fails, indication failing authentication / without integrity}}. A buffer of a kind the statement lists as rejected (undecodable bytes, a request, a response for an unknown or finished id, a bad / missing fingerprint) that is accepted is a violation in itself. Direct oracle on every transition whose call returned Err: no events and a byte-identical canonical snapshot before/after, the only tolerated change being one added violated marker for a response on unreliable transport with credentials. A directed run with 40 (thorough up to 260) requests outstanding, each rejected twice for failing authentication, checks that a rejection touches no marker but its own. Differential oracle at every visited state: a fixed continuation (all outstanding requests driven to their final outcome by the pending deadlines, one more exchange, RTO of the new request, final snapshot) is run with and without each rejected kind inserted and must produce identical observations (only TimedOut -> ProtectionViolated for the affected request may differ)", depth),
             assumptions: vec!["the feature-gated snapshot renders every field of StunClient except the stateless encoder / decoder".into()],
-            required_symbols: vec!["bfs-configs", "rejected-and-unchanged", "marker-exception", "continuation-identical", "undecodable-garbage", "request-class", "reply-for-unknown-id", "reply-for-finished-id", "bad-fingerprint", "missing-fingerprint", "both-macs-response", "wrong-algorithm-response", "401-without-realm", "438-without-nonce", "401-failing-auth-unreliable", "438-failing-auth-unreliable", "error-response-without-error-code", "indication-failing-auth", "many-marked-requests"],
+            required_symbols: vec!["bfs-configs", "rejected-and-unchanged", "marker-exception", "continuation-identical", "undecodable-garbage", "request-class", "reply-for-unknown-id", "reply-for-finished-id", "bad-fingerprint", "missing-fingerprint", "both-macs-response", "wrong-algorithm-response", "401-without-realm", "438-without-nonce", "401-failing-auth-unreliable", "438-failing-auth-unreliable", "error-response-without-error-code", "438-without-nonce-with-integrity", "indication-failing-auth", "many-marked-requests"],
             min_outcomes: 8,
             exhaustive: true,
             bounds: json!({"depth": depth}),
